@@ -216,6 +216,15 @@ def stepC16 (st : St16) (ws : List String) : St16 × String :=
               | .error e => httpErr16 e)
           | _, _, _ => "bad-op"
         else "bad-op"
+    | ["emailinfo", nf, hdr, body, cx, sys] =>
+        -- GetEmailTokenInfo through LoginRequiredJSON; <sys> is the answer of bbs.IsSysop for the authenticated user
+        match nfield16 nf, parseRaw16 hdr, parseRaw16 body, parseHex cx, flag16 sys with
+        | some n, some h, some b, some cx, some sy =>
+            let u := authAs c T0 n h
+            (match getEmailTokenInfo c T0 Gen.Token.strGuest u b cx sy with
+            | .ok (i, eml) => "200 " ++ showIdent16 i ++ s!" eml={toHex eml}"
+            | .error e => httpErr16 e)
+        | _, _, _, _, _ => "bad-op"
     | ["refresh", nf, hdr, pcli, pr] =>
         match nfield16 nf, parseRaw16 hdr, parseHex pcli, parseRaw16 pr with
         | some n, some h, some pc, some r =>
